@@ -319,6 +319,28 @@ def run(ctx):
         C.correspond(ctx, "big-" + mode, big, [exe], drv, judge, sig_of)
         C.correspond(ctx, "malformed-" + mode, MALFORMED, [exe], drv,
                      lambda c, o: None if o == "bad-op" else "harness accepted a malformed case", sig_of)
+    # write-set oracle (implementation vs the property, no model involved): the arena is read-only, every store of
+    # the code under test faults and is recorded by address.  A store outside [dest, dest+n) is a violation even when
+    # it rewrites the value that was there (invisible to every value comparison, visible to a concurrent observer).
+    exe, _ = build(ctx, False)
+    tr_cases = [c for k, c in enumerate(small) if k % (3 if quick else 1) == 0 and not c.startswith(("cmp", "bcm"))]
+    tr_cases += [c for k, c in enumerate(small) if c.startswith(("cmp", "bcm")) and k % 40 == 0] + big[: (16 if quick else 200)]
+    rc, outs, _ = C.run_filter([exe, "--trace"], tr_cases, timeout=2400)
+    st = ctx.extra.setdefault("streams", {})
+    st["store-trace"] = {"cases": len(tr_cases), "stores_traced": 0, "outside": 0}
+    ctx.evaluations += len(tr_cases)
+    if len(outs) != len(tr_cases):
+        idx = len(outs)
+        ctx.violation({"stream": "store-trace", "kind": "impl-crash"}, {"case": tr_cases[idx] if idx < len(tr_cases) else None, "rc": rc})
+    for c, o in zip(tr_cases, outs):
+        kv = dict(x.split("=", 1) for x in o.split() if "=" in x)
+        st["store-trace"]["stores_traced"] += int(kv.get("stores", 0))
+        if int(kv.get("outside", 0)) != 0:
+            st["store-trace"]["outside"] += 1
+            ctx.violation({"op": c.split()[0], "kind": "store outside the destination range"},
+                          {"stream": "store-trace", "case": c, "implementation": o,
+                           "why": "%s stores outside [dest, dest+n), the first at dest%+d" % (kv["outside"], int(kv.get("first_outside_rel_dest", 0))),
+                           "how_to_replay": "echo '%s' | %s --trace" % (c, exe)})
     exported_symbols(ctx)
     exe, _ = build(ctx, False)
     picks = [small[0], small[len(small) // 3], small[len(small) // 2], small[-1], big[0], big[-1]]
